@@ -60,8 +60,54 @@ macro_rules! drive { ($multi:expr, $sh:expr, $case:expr, $derived:ty) => {{
     out
 }}; }
 
+/// the log (mmap) Multi channel with an old / new pair of executors (C12, last clause; C09 at the Multi level): `old=n` events are sent before
+/// the pair is spawned with `seq` = sequential_transition, the rest afterwards; every item takes its duration.
+/// Records: [2 0 90 close_answer 0] [2 0 91 old_processed new_processed] [2 0 92 last_old_end_ms first_new_start_ms(-1: none)]
+/// [2 0 93 old_callbacks new_callbacks] [2 0 94 old_stream_got_exactly_the_old_events(1/0) new_stream_got_exactly_the_new_events(1/0)] [9]
+fn run_log(case: &Case) -> Vec<i64> {
+    static SEQ: std::sync::atomic::AtomicU64 = std::sync::atomic::AtomicU64::new(0);
+    let items: Vec<u64> = case.progs.get(0).map(|p| p.iter().map(|op| op.arg(0) as u64).collect()).unwrap_or_default();
+    let n_old = (case.get("old", 0) as usize).min(items.len());
+    let rt = tokio::runtime::Builder::new_current_thread().enable_time().start_paused(true).build().unwrap();
+    let out = rt.block_on(async {
+        let name = format!("rm_harness_mexec_{}_{}", std::process::id(), SEQ.fetch_add(1, SeqCst));
+        let multi = Arc::new(MultiMmapLog::<u32, 4, NONE>::new(name.clone()));
+        let _ = std::fs::remove_file(format!("/tmp/{}.mmap", name));
+        let t0 = tokio::time::Instant::now();
+        let log: Arc<std::sync::Mutex<Vec<(bool, usize, i64, i64)>>> = Arc::new(std::sync::Mutex::new(vec![]));   // (new?, event, start ms, end ms)
+        let cbs = Arc::new((AtomicI64::new(0), AtomicI64::new(0)));
+        for j in 0..n_old { let _ = multi.send(j as u32); }
+        let items = Arc::new(items);
+        let mk = |is_new: bool| { let (log, items) = (log.clone(), items.clone()); move |stream: MutinyStream<'static, u32, _, &'static u32>| {
+            stream.map(move |item: &'static u32| { let (log, items) = (log.clone(), items.clone()); async move {
+                let j = *item as usize; let start = t0.elapsed().as_millis() as i64;
+                if items[j] > 0 { tokio::time::sleep(Duration::from_millis(items[j])).await; }
+                log.lock().unwrap().push((is_new, j, start, t0.elapsed().as_millis() as i64));
+                j } }) } };
+        let (c1, c2) = (cbs.clone(), cbs.clone());
+        multi.spawn_futures_oldies_executor(case.get("L", 1) as u32, case.get("seq", 1) == 1, Duration::ZERO,
+            "old", mk(false), move |_ex: Arc<dyn StreamExecutorStats + Send + Sync>| async move { c1.0.fetch_add(1, SeqCst); },
+            "new", mk(true),  move |_ex: Arc<dyn StreamExecutorStats + Send + Sync>| async move { c2.1.fetch_add(1, SeqCst); }).await.expect("spawn");
+        for j in n_old..items.len() { let _ = multi.send(j as u32); }
+        tokio::time::sleep(Duration::from_millis(case.get("tclose", 0) as u64)).await;
+        let closed = multi.close(Duration::ZERO).await;
+        tokio::time::sleep(Duration::from_millis(1_000_000)).await;
+        let log = log.lock().unwrap();
+        let mut olds: Vec<usize> = log.iter().filter(|e| !e.0).map(|e| e.1).collect(); let mut news: Vec<usize> = log.iter().filter(|e| e.0).map(|e| e.1).collect();
+        olds.sort(); news.sort();
+        let last_old_end = log.iter().filter(|e| !e.0).map(|e| e.3).max().unwrap_or(-1);
+        let first_new_start = log.iter().filter(|e| e.0).map(|e| e.2).min().unwrap_or(-1);
+        vec![2, 0, 90, closed as i64, 0, 2, 0, 91, olds.len() as i64, news.len() as i64, 2, 0, 92, last_old_end, first_new_start,
+             2, 0, 93, cbs.0.load(SeqCst), cbs.1.load(SeqCst),
+             2, 0, 94, (olds == (0..n_old).collect::<Vec<_>>()) as i64, (news == (n_old..items.len()).collect::<Vec<_>>()) as i64, 9]
+    });
+    if SEQ.load(SeqCst) % 32 == 0 { crate::sched::LEAKED.store(true, SeqCst); }     // (1 TiB of address space per log channel: see multi.rs)
+    out
+}
+
 pub fn run(case: &Case) -> Vec<i64> {
     reactive_mutiny::verif::deactivate();
+    if case.gets("chan") == "mmap_log" { return run_log(case); }
     let items: Vec<u64> = case.progs.get(0).map(|p| p.iter().map(|op| op.arg(0) as u64).collect()).unwrap_or_default();
     let k = case.get("k", 2) as usize;
     let rt = tokio::runtime::Builder::new_current_thread().enable_time().start_paused(true).build().unwrap();
